@@ -146,7 +146,7 @@ def spell(rng, ident, p=0.35):
 
 
 def gen_design(rng, size="small", trigger=None):
-    """size: small | medium | large ; trigger: None | 'design_case' | 'after_design' | 'amp_bus' | 'glob' | 'bracket_tail'"""
+    """size: small | medium | large ; trigger: None | 'design_case' | 'after_design' | 'amp_bus' | 'glob' | 'bracket_tail' | 'dup_base_bit'"""
     S = {"small": dict(libs=(1, 2), leaf=(1, 2), mid=(1, 2), kids=3, ports=3, width=3),
          "medium": dict(libs=(1, 3), leaf=(1, 4), mid=(1, 5), kids=5, ports=5, width=5),
          "large": dict(libs=(2, 4), leaf=(2, 6), mid=(3, 9), kids=9, ports=7, width=9)}[size]
@@ -299,6 +299,22 @@ def gen_nets(rng, cell, libs, S, trigger):
         cell["buses"].append({"id": ident, "orig": orig})
         for i in rng.sample(range(0, 4), rng.randint(2, 3)):
             nets.append({"kind": "bit", "bus": k, "idx": i, "pins": take()})
+    if trigger == "dup_base_bit":
+        # the lowest bit of a bus is declared twice (float_demo.edf does this): both declarations are the
+        # same net, their pins are joined; the other bits keep their positions
+        k = len(cell["buses"])
+        ident = gen_ident(rng, ui, amp_ok=False)
+        while ident in un:
+            ident = gen_ident(rng, ui, amp_ok=False)
+        un.add(ident)
+        cell["buses"].append({"id": ident, "orig": ident})
+        base = rng.choice([0, 0, 3])
+        dup = [{"kind": "bit", "bus": k, "idx": base, "pins": take()},
+               {"kind": "bit", "bus": k, "idx": base, "pins": (take() if rng.random() < 0.5 else [])},
+               {"kind": "bit", "bus": k, "idx": base + 1, "pins": take()},
+               {"kind": "bit", "bus": k, "idx": base + 2, "pins": take()}]
+    else:
+        dup = []
     if trigger == "bracket_tail":
         ident = gen_ident(rng, ui, amp_ok=False)
         orig = ident + "["
@@ -307,6 +323,7 @@ def gen_nets(rng, cell, libs, S, trigger):
         un.add(orig)
         nets.append({"kind": "scalar", "nm": {"id": ident, "orig": orig}, "pins": take(), "props": []})
     rng.shuffle(nets)              # any order of bits, bits of different buses interleaved
+    nets += dup                    # (kept in this order: base bit, base bit again, higher bits)
     if trigger == "glob":
         # a bus whose original name is a glob pattern matching the name of a bus declared before it
         k = len(cell["buses"])
@@ -1199,3 +1216,208 @@ def sanitize_for_c03(d, rng):
                     if key in fix:
                         x["bit"] = None
     return d
+
+
+# ==============================================================================================
+# independent reading of an EDIF text (oracle for bundled files): what the text declares, computed
+# on the s-expression tree with the property's semantics — nothing here looks at spydrnet or at the
+# Lean model.  Supported: the netlist-view subset the bundled files use.
+# ==============================================================================================
+def sexp_tokens(text):
+    toks = []
+    i, n = 0, len(text)
+    while i < n:
+        ch = text[i]
+        if ch in "()":
+            toks.append(ch)
+            i += 1
+        elif ch == '"':
+            j = text.index('"', i + 1)
+            toks.append(text[i:j + 1].replace("\n", "").replace("\r", ""))
+            i = j + 1
+        elif ch in " \t\r\n":
+            i += 1
+        else:
+            j = i
+            while j < n and text[j] not in ' \t\r\n()"':
+                j += 1
+            toks.append(text[i:j])
+            i = j
+    return toks
+
+
+def sexp_tree(text):
+    stack = [[]]
+    for t in sexp_tokens(text):
+        if t == "(":
+            stack.append([])
+        elif t == ")":
+            x = stack.pop()
+            stack[-1].append(x)
+        else:
+            stack[-1].append(t)
+    return stack[0][0]
+
+
+def _kw(x):
+    return x[0].lower() if isinstance(x, list) and x and isinstance(x[0], str) else None
+
+
+def _name(x):
+    """nameDef -> [name, identifier]"""
+    if isinstance(x, list):
+        assert _kw(x) == "rename"
+        return [x[2][1:-1], x[1]]
+    return [x, x]
+
+
+def _split_index(s, o, c):
+    """<base> o <digits> c  ->  (base, index) or None"""
+    if not s.endswith(c):
+        return None
+    k = s.rfind(o, 0, len(s) - 1)
+    if k < 0:
+        return None
+    d = s[k + 1:-1]
+    if not d or not all("0" <= ch <= "9" for ch in d):
+        return None
+    return s[:k], int(d)
+
+
+def denote_text(text):
+    """view05 (without properties) of the design an EDIF text declares.
+    Bit nets  (rename id_i_ "name[i]")  of one bus are one cable: base = least index, bit i at
+    position i - base, gaps empty; several declarations of the same net are joined (their pins in
+    order of appearance)."""
+    t = sexp_tree(text)
+    assert _kw(t) == "edif"
+    out = {"name": _name(t[1]), "libs": [], "top": None}
+    libs = []       # (identifier lower, [cell identifier lower...])
+    cellports = {}  # (li, ci) -> [(identifier lower, width)]
+    for item in t[2:]:
+        k = _kw(item)
+        if k in ("library", "external"):
+            li = len(out["libs"])
+            L = {"name": _name(item[1]), "external": k == "external", "cells": []}
+            libs.append((L["name"][1].lower(), []))
+            for cell in item[2:]:
+                if _kw(cell) != "cell":
+                    continue
+                ci = len(L["cells"])
+                C = {"name": _name(cell[1]), "view": None, "ports": [], "insts": [], "cables": []}
+                ports = []
+                insts = []
+                for v in cell[2:]:
+                    if _kw(v) != "view":
+                        continue
+                    C["view"] = _name(v[1])[1]
+                    for x in v[2:]:
+                        if _kw(x) == "interface":
+                            for p in x[1:]:
+                                if _kw(p) != "port":
+                                    continue
+                                if isinstance(p[1], list) and _kw(p[1]) == "array":
+                                    nm, width, arr = _name(p[1][1]), int(p[1][2]), True
+                                else:
+                                    nm, width, arr = _name(p[1]), 1, False
+                                d = "UNDEFINED"
+                                for y in p[2:]:
+                                    if _kw(y) == "direction":
+                                        d = {"input": "IN", "output": "OUT", "inout": "INOUT"}[y[1].lower()]
+                                C["ports"].append({"name": nm, "dir": d, "width": width, "array": arr})
+                                ports.append((nm[1].lower(), width))
+                        elif _kw(x) == "contents":
+                            cables = []     # [name, ident, array, {idx: pins} | pins]
+                            pos = {}
+                            scalar_ids = set()
+                            for y in x[1:]:
+                                if _kw(y) == "instance":
+                                    nm = _name(y[1])
+                                    ref = None
+                                    for z in y[2:]:
+                                        if _kw(z) == "viewref":
+                                            cr = z[2]
+                                            lidx = li
+                                            if len(cr) > 2:
+                                                want = cr[2][1].lower()
+                                                lidx = li if want == libs[li][0] else [a for a, _ in libs].index(want)
+                                            ref = [lidx, libs[lidx][1].index(cr[1].lower())]
+                                    C["insts"].append({"name": nm, "ref": ref})
+                                    insts.append((nm[1].lower(), ref))
+                                elif _kw(y) == "net":
+                                    nm = _name(y[1])
+                                    pins = []
+                                    for j in y[2:]:
+                                        if _kw(j) != "joined":
+                                            continue
+                                        for pr in j[1:]:
+                                            if _kw(pr) != "portref":
+                                                continue
+                                            if isinstance(pr[1], list):
+                                                pid, bit = pr[1][1].lower(), int(pr[1][2])
+                                            else:
+                                                pid, bit = pr[1].lower(), 0
+                                            inst = None
+                                            for z in pr[2:]:
+                                                if _kw(z) == "instanceref":
+                                                    inst = z[1].lower()
+                                            if inst is None:
+                                                pi = [a for a, _ in ports].index(pid)
+                                                pins.append(["p", pi, bit])
+                                            else:
+                                                ii = [a for a, _ in insts].index(inst)
+                                                r = insts[ii][1]
+                                                pi = [a for a, _ in cellports[tuple(r)]].index(pid)
+                                                pins.append(["i", ii, pi, bit])
+                                    sn = _split_index(nm[0], "[", "]") if not nm[0].startswith("\\") else None
+                                    si = _split_index(nm[1], "_", "_")
+                                    # a bus cannot take a base identifier that a scalar net of the cell already
+                                    # carries (n_bit_counter.edf: (net (rename counter "[3:0]counter") …) before
+                                    # counter_0_ / "counter[0]"): such bit nets stay scalar nets
+                                    if sn is not None and si is not None and si[0].lower() in scalar_ids \
+                                            and ("bus", sn[0]) not in pos:
+                                        sn = None
+                                    if sn is not None and si is not None:
+                                        key = ("bus", sn[0])
+                                        if key not in pos:
+                                            pos[key] = len(cables)
+                                            cables.append({"name": [sn[0], si[0]], "array": True, "bits": {}})
+                                        bits_so_far = cables[pos[key]]["bits"]
+                                        if bits_so_far and sn[1] == min(bits_so_far):
+                                            out.setdefault("features", set()).add("dup_base_bit")
+                                        bits_so_far.setdefault(sn[1], []).extend(pins)
+                                    else:
+                                        key = ("net", nm[0])
+                                        scalar_ids.add(nm[1].lower())
+                                        if key not in pos:
+                                            pos[key] = len(cables)
+                                            cables.append({"name": nm, "array": False, "lower": 0, "wires": [[]]})
+                                        cables[pos[key]]["wires"][0].extend(pins)
+                            for cb in cables:
+                                if "bits" in cb:
+                                    bits = cb.pop("bits")
+                                    lo, hi = min(bits), max(bits)
+                                    cb["lower"] = lo
+                                    cb["wires"] = [bits.get(i, []) for i in range(lo, hi + 1)]
+                            C["cables"] = cables
+                libs[li][1].append(C["name"][1].lower())
+                cellports[(li, ci)] = ports
+                L["cells"].append(C)
+            out["libs"].append(L)
+        elif k == "design":
+            cr = item[2]
+            lidx = [a for a, _ in libs].index(cr[2][1].lower())
+            out["top"] = {"name": _name(item[1]), "ref": [lidx, libs[lidx][1].index(cr[1].lower())]}
+    return out
+
+
+def strip_props(v):
+    """view05 without the property lists (denote_text does not read properties)"""
+    v = copy.deepcopy(v)
+    for L in v["libs"]:
+        for C in L["cells"]:
+            C.pop("props", None)
+            for k in ("ports", "insts", "cables"):
+                for x in C[k]:
+                    x.pop("props", None)
+    return v
